@@ -217,7 +217,9 @@ func planC01(tier string, seed int64) (*Plan, error) {
 		return nil, err
 	}
 	p.Jobs = append(p.Jobs, windowJobs("H_c01_convert", docs, seed, nwin, 1, []string{all, core, cfg("gfm,cjkcss3", "attr", "xhtml")})...)
+	deepExtFamilies = true
 	ej, eb := extFamilyJobs("H_c01_convert", thorough, false, "autoid,attr", "", nil)
+	deepExtFamilies = false
 	var ej2 []interp.Job
 	if thorough {
 		ej2, _ = extFamilyJobs("H_c01_convert", false, false, "", "unsafe,xhtml,hardwraps", nil)
@@ -292,13 +294,21 @@ func planC19(tier string, seed int64) (*Plan, error) {
 	p.Jobs = append(p.Jobs, job("H_c19_linkref", "n", nLink+2, "alpha", "aA \t\xc3\x9f"))
 	p.Jobs = append(p.Jobs, job("H_c19_bytesfilter", "keys", 6, "base", 3))
 	p.Jobs = append(p.Jobs, job("H_c19_bytesfilter", "keys", 5, "base", 2, "klen", 2, "alpha", "a!"))
+	// operation histories over a growing pool of filters (Add / Extend with 0-2 keys / ExtendString)
+	p.Jobs = append(p.Jobs, job("H_c19_filter_hist", "k", 2))
+	p.Jobs = append(p.Jobs, job("H_c19_filter_hist", "k", 2, "klen", 2, "alpha", "a!"))
+	p.Jobs = append(p.Jobs, job("H_c19_filter_hist", "k", 2, "fromstring", 1, "alpha", "a!b"))
+	p.Jobs = append(p.Jobs, job("H_c19_filter_hist", "k", 2, "klen", 4, "alpha", "ab"))
+	if thorough {
+		p.Jobs = append(p.Jobs, job("H_c19_filter_hist", "k", 3, "alpha", "a!"))
+	}
 	p.Bounds = map[string]interface{}{
 		"EscapeHTML":       fmt.Sprintf("all byte strings of length 0..%d (256 values per byte)", nEsc),
 		"URLEscape(false)": fmt.Sprintf("all byte strings of length 0..%d; length %d..%d over {%%,4,g,space,C3,A9,<}; %%XX triples with symbolic hex digits and 0..1 / 0..2 symbolic lower-case neighbours", nURL, nURL+1, nURL+2),
 		"resolvers":        fmt.Sprintf("all byte strings of length 0..%d; length %d over {&,#,x,1,;,\\,a,C3,A9}; &#x h{1..%d} ; (plus 8..17-digit references with a concrete prefix and two symbolic digits) and &# d{1..%d} ; with symbolic digits; & name{1..%d} ; with symbolic letters", nRes, nRes+2, kHex, kDec, kEnt),
 		"ToLinkReference":  fmt.Sprintf("all byte strings of length 0..%d plus length %d over {a,A,space,tab,C3,9F}; symbolic per-letter case flips and whitespace-run rewriting", nLink, nLink+2),
-		"BytesFilter":      "histories NewBytesFilter; Add×base; Extend; Extend; Add with 5-6 symbolic keys over a 5-byte alphabet in which four bytes share a hash bucket (1-byte keys), and 2-byte keys over {a,!}",
-		"outside":          "longer inputs; keys longer than 2 bytes; histories longer than 6 operations",
+		"BytesFilter":      "histories NewBytesFilter; Add×base; Extend; Extend; Add with 5-6 symbolic keys over a 5-byte alphabet in which four bytes share a hash bucket (1-byte keys), and 2-byte keys over {a,!}; operation histories of 2 (thorough 3) steps over a growing pool of filters, each step a solver-enumerated choice among Add(key) on any filter and deriving a new filter from any filter by Extend() / Extend(k) / Extend(k1,k2) / ExtendString(\"\") / ExtendString(\"k1,k2\"), every filter compared with its set model on every key after every step (1-byte keys over {a,!,A1,b}, 2-byte keys over {a,!}, 4-byte keys over {a,b}, and a pool started with NewBytesFilterString)",
+		"outside":          "longer inputs; histories longer than 6 operations",
 	}
 	p.Rule = "one job per (function, length/template); all paths of each job explored"
 	return p, nil
@@ -417,6 +427,7 @@ func convertFamilies(entry string, tier string, seed int64, cfgsS2, cfgsS3, cfgs
 		lastParts = append(lastParts, "")
 	}
 	ej, eb := extFamilyJobs(entry, thorough, light, lastParts[1], lastParts[2], nil, extra...)
+	deepExtFamilies = false
 	aj, ab := attrFamilyJobs(entry, thorough, light, []string{"core", allExt}, lastParts[2], extra...)
 	lj, lb := longDocJobs(entry, thorough, light, cfgsDeep, extra...)
 	jobs = append(append(append(jobs, ej...), aj...), lj...)
@@ -450,6 +461,7 @@ func planC05(tier string, seed int64) (*Plan, error) {
 		s3 = cfgs
 		nwin = 3000
 	}
+	deepExtFamilies = true
 	jobs, b, err := convertFamilies("H_c05_parse", tier, seed, cfgs, s3, []string{core, all}, nwin)
 	if err != nil {
 		return nil, err
@@ -550,10 +562,34 @@ func planC06(tier string, seed int64) (*Plan, error) {
 	}
 	// aligned tables, rendered twice
 	jobs = append(jobs, job("H_c06_pure", "cfg", gfm, "n", 5, "alpha", "a|-:\n", "hist", 4))
+	// extensions configured with options (footnote id prefix / titles / classes / back-link HTML with the ^^ index and
+	// %% reference-count placeholders, id prefix function, linkify protocols, table alignment none): same-shaped
+	// documents with different counts converted one after the other
+	optPairs := [][2]string{
+		{"x[^1] y[^1]\n\n[^1]: f\n", "x[^1]\n\n[^1]: f\n"},
+		{"x[^1]\n\n[^1]: f\n", "x[^1] y[^1] z[^1]\n\n[^1]: f\n"},
+		{"a[^1] b[^2]\n\n[^1]: f\n\n[^2]: g\n", "a[^2] b[^1] c[^2]\n\n[^1]: f\n\n[^2]: g\n"},
+		{"| a |\n|:-:|\n| http://a.b |\n", "| a | b |\n|--:|:--|\n| x-y://c | d |\n"},
+	}
+	optCfgs := []string{cfg("footnoteopts,linkifyopts,tablenone", "", ""), cfg("footnotefn,table", "autoid", "xhtml"), cfg("footnoteopts,typographer", "attr", "unsafe")}
+	for i, pr := range optPairs {
+		for j, c := range optCfgs {
+			if (i+j)%2 == 0 || tier == "thorough" {
+				jobs = append(jobs, job("H_c06_pure", "cfg", c, "histdoc", pr[0], "seed", pr[1], "pos", len(pr[1]), "window", 1))
+				jobs = append(jobs, job("H_c06_pure", "cfg", c, "histdoc", pr[1], "seed", pr[0], "pos", 1+i, "window", 1))
+			}
+		}
+	}
+	for _, c := range optCfgs {
+		for n := 0; n <= 2; n++ {
+			jobs = append(jobs, job("H_c06_pure", "cfg", c, "n", n, "hist", 2))
+		}
+	}
 	p.Jobs = jobs
 	b["S(2)"] = "probe document B: every byte string of length 0..2 x " + fmt.Sprint(cfgs) + " x 7 state-rich history documents A (link references, duplicate headings, footnotes, quotes, aligned table, fenced info, definition list)"
 	b["symbolic-history"] = fmt.Sprintf("history document A: every byte string of length 1..2 and length 3 over {[,],:,a,LF,#,\",^} x %d state-sensitive probe documents B", len(stateProbes))
 	b["tables"] = "S(5,{a,|,-,:,LF}) with GFM, same tree rendered twice"
+	b["options"] = fmt.Sprintf("extensions configured with options %v: %d pairs of same-shaped documents with different footnote reference counts / table shapes converted one after the other (one symbolic byte), and S(2) after a footnote history", optCfgs, len(optPairs))
 	p.Bounds = b
 	p.Assumptions = []string{"histories: o1=conv(B); conv(A); o2=conv(B) on one instance, o3 on a fresh instance, o4=Render(Parse(B)), o5=Render of the same tree; the shared instance and all goldmark package globals are under a write barrier during these calls, so no state can outlive a conversion on the explored inputs (this is what extends two-document histories to histories of any length)"}
 	p.Rule = "relational assertions over five outputs per path plus the frozen-state monitor"
